@@ -67,6 +67,7 @@ namespace via
       Chunk state_ { Chunk::SIZE_LS }; ///< the current parsing state
       bool size_read_ { false };       ///< true if the chunk size was read
       bool valid_ { false };           ///< true if a chunk header is valid
+      bool fail_ { false };            ///< true if a chunk header failed validation
 
       /// Parse an individual character.
       /// @param c the current character to be parsed.
@@ -209,6 +210,7 @@ namespace via
         state_ = Chunk::SIZE_LS;
         size_read_ =  false;
         valid_ =  false;
+        fail_ =  false;
       }
 
       /// Swap member variables with another chunk_header.
@@ -224,6 +226,7 @@ namespace via
         std::swap(state_, other.state_);
         std::swap(size_read_, other.size_read_);
         std::swap(valid_, other.valid_);
+        std::swap(fail_, other.fail_);
       }
 
       /// Parse an http 1.1 chunk size line
@@ -238,7 +241,10 @@ namespace via
         {
           char c(*iter++);
           if (!parse_char(c))
+          {
+            fail_ = true;
             return false;
+          }
         }
 
         valid_ = (Chunk::VALID == state_);
@@ -264,6 +270,12 @@ namespace via
       /// @return the valid flag.
       bool valid() const noexcept
       { return valid_; }
+
+      /// Accessor for the fail flag.
+      /// @return true if the chunk header failed validation, i.e. it is not
+      /// just incomplete.
+      bool fail() const noexcept
+      { return fail_; }
 
       /// Function to determine whether this is the last chunk.
       /// @return true if the last chunk, false otherwise.
@@ -450,6 +462,12 @@ namespace via
         valid_ = true;
         return valid_;
       }
+
+      /// Accessor for the fail flag.
+      /// @return true if the chunk header or trailers failed validation,
+      /// i.e. the chunk is not just incomplete.
+      bool fail() const noexcept
+      { return ChunkHeader::fail() || trailers_.fail(); }
 
       /// Accessor for the chunk message trailers.
       /// @return a constant reference to the trailer message_headers
